@@ -370,7 +370,7 @@ fn case() -> impl Strategy<Value = Case> {
         3 => (any::<u16>(), any::<bool>()).prop_map(|(k, u)| Path::Executor(k, u)),
     ];
     (
-        (path, prop_oneof![24 => 1u8..=40, 1 => Just(0u8)], 4u8..=8, prop_oneof![1 => Just(0u8), 12 => 1u8..=9]),
+        (path, prop_oneof![24 => 1u8..=40, 1 => Just(0u8)], 4u8..=8, prop_oneof![1 => Just(0u8), 10 => 1u8..=9, 3 => 10u8..=40]),
         (prop_oneof![20 => select(vec![1u8, 1, 2, 5, 7]), 1 => Just(0u8)], prop_oneof![1 => Just(0u8), 12 => 1u8..=3]),
         (0u8..=5, 0u8..=5, fill_strategy(6), 0u8..=1, lay_strategy(), any::<u32>(), 0u8..=2),
     )
@@ -398,7 +398,7 @@ fn main() {
     ck.rule(
         "One case = one multiplication by a 4-bit block-quantized N-column weight matrix through one of: BlockQuantizedGemm Float, BlockQuantizedGemm Int8 \
          (batch 0..3, M ∈ {0,1,2,5,7}; M=1 takes the quantised-LHS path), or GemmExecutor<f32>::{gemm,gemm_uninit} with GemmInputB::BlockQuantized on each f32 kernel (generic, FMA, AVX-512). \
-         N 0..40, block size 16/32/64/128/256, 0..9 blocks (so the vector loops have main parts and tails for 128/256/512-bit ISAs), nibble patterns all-0 / all-15 / all-8 / hash / 0xE1 (lo != hi) / extremes, \
+         N 0..40, block size 16/32/64/128/256, 0..40 blocks, mostly <= 9 (so the vector loops have main parts and tails for 128/256/512-bit ISAs), nibble patterns all-0 / all-15 / all-8 / hash / 0xE1 (lo != hi) / extremes, \
          scales ones / uniform / signed / tiny / large / with zeros, LHS fills incl. all-zero K-blocks, LHS contiguous or column-major, pools of 1/3/16 threads. \
          Enumerated sub-check: BlockQuantizedMatrix::new over block_bytes 0..=300 × bits 0..=9 must accept exactly power-of-two block sizes >= 16 with a supported bit width. \
          Non-trivial = batch,M,N,K >= 1 with some weight that dequantises to non-zero and a non-zero LHS. Distinct = distinct Debug rendering.",
